@@ -120,6 +120,13 @@ claim('C14', 'exploration', 'runtime monitor: twin comparison (blocking vs await
       'object; awaited TIMEOUTs bounded; dedicated timeout=0 sub-check.',
       'Differences must reproduce in two serial re-runs; _async_pre_await.py not importable on 3.12.', '5/C14')
 
+claim('C17', 'exploration', 'runtime monitor: pxssh oracle over the transcript of a scripted fake ssh',
+      'Enumerated (all dialogues up to a bound over a 14-step alphabet) and random server dialogues x login options; the '
+      'fake ssh records every output/input with sequence numbers; clauses on secrets, yes, True-only-at-a-shell-prompt, '
+      'prompt() delimiting and exception-within-timeouts evaluated on the transcript and on login()\'s result.',
+      'A scripted client stands in for OpenSSH; overall bound 75 s per login (hard-coded 10 s steps in set_unique_prompt).',
+      '5/C17')
+
 PENDING = {
 }
 
